@@ -1,12 +1,11 @@
-"""C04 - beam search returns distinct, correctly scored, best-first paths per element.
-
-Bounded run-time contracts (engine B) live in contracts/C04_rt.py; the deductive part
-(C04.adv.post over the source of beam_search_advance) is added here when available.
-"""
-from contracts import C04_rt
+"""C04 - beam search returns distinct, correctly scored, best-first paths per element."""
+from contracts import C04_rt, C04_vc
+from vf.pyvc import api
 
 CHECKERS = dict(C04_rt.CHECKERS)
 
 
 def run(ctx):
+    api.run_vcs(ctx, C04_vc.vcs(ctx), {"C04.S.advance_step": "real beam_search_advance source: new score = source score + extension score; new path = source prefix + token; (source, token) pairs distinct; best-first and optimal among candidates; filler slots -inf / length 0; all contents"},
+                bounded="shapes (N,old_width,V,S,width) up to (1,3,2,1,6)/(2,2,2,1,3); ALL scores and prefixes; y_prev_lens omitted")
     C04_rt.run_bounded(ctx)
